@@ -394,6 +394,24 @@ def main():
         n = rng.choice([2, 3])
         M = [rng.randint(-3, 3) for _ in range(n * n)]
         check_matrix(ck, drv, n, rng.choice([0, 7]), M)
+    # large elementary matrices (n >= 33: more than 1000 entries), several per size, differing only in entries far from the
+    # corners, inverted one after the other in one process and then as one definition: every inverse is judged against the
+    # matrix it was asked for (whatever was inverted before)
+    for n in ((33, 40) if not ck.thorough else (33, 40, 48, 64)):
+        modulo = rng.choice([0, 0, 7, 10])
+        mats = []
+        for _ in range(5):
+            i, j = rng.sample(range(6, n - 6), 2)
+            M = [int(r == c) for r in range(n) for c in range(n)]
+            M[i * n + j] = rng.choice([1, -1, 2, 3])
+            mats.append(M)
+        for M in mats:
+            if ck.enough():
+                break
+            ck.count("matrix:large-elementary")
+            check_matrix(ck, drv, n, modulo, M)
+        if not ck.enough():
+            check_matrix_def(ck, drv, n, modulo, [[v % modulo if modulo else v for v in M] for M in mats][:3], None)
     ck.assumptions = [
         "np.linalg.inv (IEEE floats) is an oracle of the model: the theorem inv_sound holds for every candidate; completeness (success for every matrix with an integer inverse) is covered by the correspondence only, for entries below 2^20 with inverse entries below 2^40",
         "modular matrices invertible only modulo m are outside the guaranteed domain (documented as not implemented)",
